@@ -235,3 +235,18 @@ class _:
         raise Unsupported(spelling)
     def coq(spelling, form, tol, rhs, cast, inplace, by):
         return '(OPut %s %s %s %s)' % (cq_form(form), cq_tol(tol), cq_rhs(rhs), 'true' if cast else 'false')
+
+@op('putmask')
+class _:
+    def run(a, ins, mask, rhs, cast, spelling):
+        m = np.array(mask, dtype=bool).reshape(a.shape)
+        v = py_rhs(rhs)
+        if spelling == 'setitem':
+            if cast: raise Unsupported('setitem cast')
+            b = a.copy(); b[m] = v; return b
+        return a.put(m, v, cast=cast, inplace=False)
+    def coq(mask, rhs, cast, spelling):
+        return '(OPutMask %s %s %s)' % (cq_list(['true' if b else 'false' for b in mask]), cq_rhs(rhs), 'true' if cast else 'false')
+
+def snapshot(a):
+    return json.dumps(in_json(a), sort_keys=True, default=str)
